@@ -671,9 +671,9 @@ def main():
     for c in job["cases"]:
         try:
             fn = {"ser": world.run_ser, "de": world.run_de, "rt": world.run_rt, "mut": world.run_mut}[c["kind"]]
-            if timeouts.get(c.get("prog"), 0) >= 3:
-                # this program's generated code has already hung three times in this process: do not wait for it again
-                raise TimeoutError("not run: earlier cases of this program did not terminate")
+            if sum(timeouts.values()) >= 3:
+                # generated code has already hung three times in this process: do not wait for it again
+                raise TimeoutError("not run: earlier cases in this process did not terminate")
             signal.alarm(20)
             try:
                 res["results"].append(fn(c))
